@@ -81,13 +81,13 @@ CLAIMED.update({
          "tech": BT},
 })
 CLAIMED.update({
- "C03": {"cat": "other", "text": "Proved for all inputs: CsvPath.set_variable / get_variable write and read exactly the addressed variable or tracking value and leave every other entry of the store untouched (frame quantified over the whole store; a frozen run changes nothing; 0 and None are values); raise_match_count_if / _consider_line / LineMonitor.next_line keep match_count, scan_count and the 0-based/1-based line counters; first, tally, count, counter, sum, push, pop, count_lines, line_number, count_scans perform exactly the documented read-modify-write against the abstract store, which Matcher.get_variable / set_variable hand to CsvPath's store functions unchanged. Bounded: the end-to-end fold over 5 program families x 4 scans x 120 (thorough 2500) generated files.",
-         "note": "The variable store is a nested dict: plain variables are proved over dict[str -> value], tracking dicts over one named entry holding dict[str -> value] (string tracking keys) -- other shapes, list-valued variables at end of run, every(), subtotal(), string-to-number conversion of cells are BOUNDED only.",
+ "C03": {"cat": "other", "text": "Proved for all inputs: CsvPath.set_variable / get_variable write and read exactly the addressed variable or tracking value and leave every other entry of the store untouched (frame quantified over the whole store; a frozen run changes nothing; 0 and None are values); raise_match_count_if / _consider_line / LineMonitor.next_line keep match_count, scan_count and the 0-based/1-based line counters; first, tally, count, counter, every, sum, subtotal, push, pop, count_lines, line_number, count_scans perform exactly the documented read-modify-write against the abstract store, which Matcher.get_variable / set_variable hand to CsvPath's store functions unchanged. Bounded: the end-to-end fold over 5 program families x 4 scans x 120 (thorough 2500) generated files.",
+         "note": "The variable store is a nested dict: plain variables are proved over dict[str -> value], tracking dicts over one named entry holding dict[str -> value] (string tracking keys) -- other shapes, list-valued variables at end of run, string-to-number conversion of cells are BOUNDED only.",
          "tech": BT},
 })
 CLAIMED.update({
- "C01": {"cat": "other", "text": "Proved for all inputs along the chain CsvPath.next -> _consider_line -> Matcher.matches -> Expression.matches -> Equality.matches -> Function.matches: lines are yielded once, in file order, exactly when the verdict holds; the verdict is the AND/OR of the component votes taken left to right; Equality dispatches by operator once per line; '==' compares as written or as values; '->' runs its right side iff the left side matched, once per line; a function decides exactly once per line and errors go to the expression; a variable is an existence test (0 and '' exist); not/and/or/yes/no/length and the strict / non-strict AboveBelow comparisons are the documented operators. Bounded: reference evaluation of 150 (thorough 3000) generated (csvpath, file) pairs in AND and OR mode.",
-         "note": "Known findings (genuine, recorded, not repaired): lt()/below()/before() answer <= (numbers and strings); ordinal comparisons treat CSV cells as strings. The other leaf functions of the documented set (in, empty, exists, equals, add, subtract, multiply, divide, mod, concat, lower, upper, ...) are covered by the bounded evaluator only; regex, dates, stats are not covered.",
+ "C01": {"cat": "other", "text": "Proved for all inputs along the chain CsvPath.next -> _consider_line -> Matcher.matches -> Expression.matches -> Equality.matches -> Function.matches: lines are yielded once, in file order, exactly when the verdict holds; the verdict is the AND/OR of the component votes taken left to right; Equality dispatches by operator once per line; '==' compares as written or as values; '->' runs its right side iff the left side matched, once per line; a function decides exactly once per line and errors go to the expression; a variable is an existence test (0 and '' exist); not/and/or/yes/no/length/exists/empty/add/multiply/concat/starts_with/strip/lower/upper and the strict / non-strict AboveBelow comparisons are the documented operators. Bounded: reference evaluation of 150 (thorough 3000) generated (csvpath, file) pairs in AND and OR mode.",
+         "note": "Known findings (genuine, recorded, not repaired): lt()/below()/before() answer <= (numbers and strings); ordinal comparisons treat CSV cells as strings. The other leaf functions of the documented set (in, equals, subtract, divide, mod, substring, ...) and argument lists longer than two are covered by the bounded evaluator only; regex, dates, stats are not covered.",
          "tech": BT},
 })
 NA_REASON = {}
